@@ -1,3 +1,3 @@
 INIT Init
 NEXT Next
-INVARIANTS Inv1 Inv2 Inv3 AsBuiltGap Reproduces FieldTamperDetected FileTamperDetected OnlyJointPasses EmitV
+INVARIANTS Inv1 Inv2 Inv3 AsBuiltGap AsBuiltMalleable Inv4 Reproduces FieldTamperDetected FileTamperDetected OnlyJointPasses EmitV
